@@ -15,6 +15,9 @@ REVERTS = {
 }
 
 ASSESS = {
+ "C11-r3-m2": "Moves `size += 1` of PriorityQueue::push back behind the sift-up (partial revert of D6): only visible after a caught panic in a comparison; reported by C10 (safety), outside C11 as quantified (well-behaved user code).",
+ "C12-r3-m2": "Deserialising a sequence that repeats an item now keeps the LAST item value instead of the first. No listed property fixes which item value deserialisation keeps for a repeated item (C15 speaks of priorities, C12 of push/change_priority/push_increase/push_decrease); not a violation of C12 as stated, not reported, not claimed.",
+ "C16-r3-m2": "Needs an element whose Drop panics inside clear(); Drop is not among the user callbacks the properties quantify over. Not reported, not claimed.",
  "C01-r2-m2": "Needs a panic in Ord::cmp caught by the caller. After such an event the order and the reported length are unspecified (C10); C01 quantifies over histories with well-behaved user code. The change is reported by C10 (safety), not by C01, by design.",
  "C13-r2-m2": "Same change as C01-r2-m2 on the DoublePriorityQueue: only visible after a caught panic in a comparison; reported by C10, outside C13 as quantified.",
  "C16-r2-m2": "Only visible after a caught panic in a retain predicate; drain then panics (safely) instead of emptying the queue. No memory-safety consequence, so C10 is silent; C16 quantifies over fault-free histories. Not detected, and not claimed.",
@@ -25,30 +28,39 @@ for d in sorted(os.listdir(ROOT)):
     p = os.path.join(ROOT, d)
     if not os.path.isdir(p):
         continue
-    ev = os.path.join(p, "eval-final.txt")
-    if not os.path.exists(ev):
+    evdir = os.path.join(p, "evals")
+    files = sorted(glob.glob(os.path.join(evdir, "*.txt")))
+    if not files:
         continue
-    txt = open(ev).read()
+    txt_all = {os.path.basename(f): open(f).read() for f in files}
     def res(key):
-        m = re.search(r"RESULT " + re.escape(key) + r": (.*)", txt)
-        return m.group(1).strip() if m else "not run"
-    caught, machinery = [], []
-    for pr in PROPS:
-        m = re.search(rf"RESULT check {pr} quick: exit=(\d+)", txt)
-        if not m:
-            continue
-        if m.group(1) == "1":
-            caught.append(pr)
-        elif m.group(1) != "0":
-            machinery.append(pr)
+        for name, txt in txt_all.items():
+            m = re.search(r"RESULT " + re.escape(key) + r": (.*)", txt)
+            if m:
+                return m.group(1).strip()
+        return "not run"
+    caught, machinery, ran = set(), set(), set()
+    for name, txt in txt_all.items():
+        for pr in PROPS:
+            for m in re.finditer(rf"RESULT check {pr} quick: exit=(\d+)", txt):
+                ran.add(pr)
+                if m.group(1) == "1":
+                    caught.add(pr)
+                elif m.group(1) != "0":
+                    machinery.add(pr)
+    machinery -= caught
+    final = txt_all.get("final-own-property.txt", "")
     if d in REVERTS:
         prop, commit, needs = REVERTS[d]
         origin = f"revert of fix commit {commit} in /repo"
     else:
         prop = d.split("-")[0]
-        origin = "written by a fresh sub-agent that was given only the text of " + prop + " and a scratch worktree" + (" (second round: asked for mechanisms different from the first round)" if "-r2" in d else "")
+        rnd = "third" if "-r3-" in d else ("second" if "-r2-" in d else "first")
+        origin = f"written by a fresh sub-agent ({rnd} round) that was given only the text of {prop} and a scratch worktree"
         notes = os.path.join(p, "notes.md")
         needs = open(notes).read().strip() if os.path.exists(notes) else ""
+    m = re.search(rf"RESULT check {prop} quick: exit=(\d+)", final)
+    own_final = None if not m else (m.group(1) == "1")
     meta = {
         "id": d,
         "breaks_property": prop,
@@ -59,25 +71,24 @@ for d in sorted(os.listdir(ROOT)):
             "demo_without_the_change": res("demo-without-patch"),
             "demo_with_the_change": res("demo-with-patch"),
         },
-        "what_was_run": "tools/eval_seeded.sh seeded/" + d + " \"C01 .. C18\" quick  (scratch worktree of /repo + scratch copy of the harness; /repo untouched); raw output in eval-final.txt",
-        "quick_checks_reporting_a_violation": caught,
-        "quick_checks_with_machinery_exit": machinery,
-        "caught_by_its_own_property": prop in caught,
+        "what_was_run": "tools/eval_seeded.sh seeded/" + d + " \"<checks>\" quick (scratch worktree of /repo + scratch copy of the harness; /repo untouched); raw outputs in evals/: pass1-all-checks (all 18 quick checks with the harness as it was when the change arrived), reeval*/r3eval (targeted runs after strengthening), final-own-property (its own property with the final harness)",
+        "quick_checks_that_reported_it (union over all runs, a lower bound)": sorted(caught),
+        "quick_checks_run": sorted(ran),
+        "reported_by_its_own_property_with_the_final_harness": own_final,
     }
     if d in ASSESS:
         meta["assessment"] = ASSESS[d]
     json.dump(meta, open(os.path.join(p, "meta.json"), "w"), indent=1)
-    rows.append((d, prop, caught, machinery))
+    rows.append((d, prop, sorted(caught), sorted(machinery), sorted(ran), own_final))
 
 with open(os.path.join(ROOT, "MATRIX.md"), "w") as f:
-    f.write("# Seeded changes x quick checks\n\n`X` = the check exits 1 with a VIOLATION line and a replay that reproduces; `!` = machinery exit (no verdict); blank = exit 0.\nGenerated by tools/make_seeded_meta.py from seeded/*/eval-final.txt.\n\n")
+    f.write("# Seeded changes x quick checks\n\n`X` = the check exited 1 with a VIOLATION line and a replay that reproduced twice, in at least one of the runs recorded under `<change>/evals/`; `.` = run and silent; blank = not run against this change (the third round was run against its own property, C03 and C04 only). Entries are a lower bound: the all-checks pass was made with the harness as it was when the change arrived, later strengthening only adds detections. Column `own` = reported by the check of the property it was written against, with the FINAL harness.\nGenerated by tools/make_seeded_meta.py.\n\n")
     f.write("| change | for | " + " | ".join(p[1:] for p in PROPS) + " | own |\n")
     f.write("|---|---|" + "---|" * len(PROPS) + "---|\n")
     own = 0
-    for d, prop, caught, mach in rows:
-        cells = ["X" if p in caught else ("!" if p in mach else "") for p in PROPS]
-        ok = prop in caught
-        own += ok
-        f.write(f"| {d} | {prop} | " + " | ".join(cells) + f" | {'yes' if ok else 'NO'} |\n")
-    f.write(f"\n{own} of {len(rows)} changes are reported by the check of the property they were written against; every change is reported by at least one check: {all(len(r[2])>0 for r in rows)}.\n")
+    for d, prop, caught, mach, ran, own_final in rows:
+        cells = ["X" if p in caught else ("." if p in ran else "") for p in PROPS]
+        own += bool(own_final)
+        f.write(f"| {d} | {prop} | " + " | ".join(cells) + f" | {'yes' if own_final else ('NO' if own_final is False else '?')} |\n")
+    f.write(f"\n{own} of {len(rows)} changes are reported by the check of the property they were written against (final harness). Not reported by their own property, by design (see meta.json `assessment`): " + ", ".join(r[0] for r in rows if r[5] is False) + ".\n")
 print("rows", len(rows))
